@@ -70,10 +70,18 @@ def _same_out(o1, o2):
     return b_and(*[b_or(boolexpr(s_eq(a, b)), b_and(pl.is_nan_z(a), pl.is_nan_z(b))) for a, b in zip(r1.reshape(-1), r2.reshape(-1))])
 
 
-def sym_pool(c, strat, n, mode, b):
+def sym_pool(c, strat, n, mode, b, rs="int"):
     a = _adapter(strat)
     s = pl.gen_scenario(c, n, mode, b, independent=a.independent)
     facade.set_global_seed(z3.Int("G1"))
+    if rs == "instance":
+        # random_state given as a RandomState INSTANCE shared by the original and its twin
+        inst = facade.SymRandomState(s.seed)
+        seed_arg = inst
+    else:
+        seed_arg = s.seed
+    s_seed = s.seed
+    s.seed = seed_arg
     qs = a.make(s.seed, sym=True)
     o1 = a.call(qs, s, b, True)
     o1b = a.call(qs, s, b, True)
@@ -86,8 +94,23 @@ def sym_pool(c, strat, n, mode, b):
     c.witness(True, "ran")
 
 
-def replay_pool(inputs, label, strat, n, mode, b):
+def replay_pool(inputs, label, strat, n, mode, b, rs="int"):
     a = _adapter(strat)
+    if rs == "instance":
+        s = pl.real_scenario(inputs, n, mode)
+        for seed in [s.seed, 0, 1, 2]:
+            inst = np.random.RandomState(seed)
+            qs = a.make(inst, sym=False, inputs=inputs)
+            o1 = a.call(qs, s, b, False, table=inputs.get("__clf__"))
+            o1b = a.call(qs, s, b, False, table=inputs.get("__clf__"))
+            twin = a.make(inst, sym=False, inputs=inputs)
+            o2 = a.call(twin, s, b, False, table=inputs.get("__clf__"))
+            same = lambda x, y: np.array_equal(x[0], y[0]) and np.array_equal(x[1], y[1], equal_nan=True)
+            if not same(o1, o1b) or not same(o1, o2):
+                return True, (f"{strat}(random_state=RandomState({seed})).query(X={s.X.ravel().tolist()}, labeled={s.lab}, candidates="
+                              f"{s.cand if mode != 'rows' else 'rows'}, batch_size={b}): first {np.asarray(o1[0]).tolist()}, repeated "
+                              f"{np.asarray(o1b[0]).tolist()}, twin {np.asarray(o2[0]).tolist()}")
+        return False, "not reproduced"
     datasets = [pl.real_scenario(inputs, n, mode)]
     if strat.startswith("TypiClust"):
         # data on which k-means has several optimal partitions (duplicated / equidistant points)
@@ -252,6 +275,10 @@ def _cfg_pool(name):
                 if getattr(a, "slow", False) and b > 1:
                     continue
                 out.append(dict(strat=name, n=3, mode=mode, b=b))
+        if name in ("RandomSampling", "UncertaintySampling[least_confident]"):
+            # random_state passed as a RandomState instance; explicit candidates incl. the fully labeled pool
+            for mode in ("idx", "rows"):
+                out.append(dict(strat=name, n=3, mode=mode, b=2, rs="instance"))
         return out
     return cfg
 
